@@ -10,5 +10,5 @@ assert old in s, "pattern not found"
 open(p,'w').write(s.replace(old,new,1))
 PY
 [ $? -eq 0 ] || exit 9
-cd /verif && ./vf check $P quick 2>&1 | grep -v "^  " | tail -${TAILN:-6}
+cd /verif && VERIF_NO_EVIDENCE=1 ./vf check $P quick 2>&1 | grep -v "^  " | tail -${TAILN:-6}
 git -C /repo checkout -- . 
